@@ -7,6 +7,102 @@ gather_data_for_call_variant), through plain input files."""
 from . import common, pipe_checks, pipe_explore
 
 
+def parser_stream(ctx: common.Ctx):
+    """--skip-failed of parseVEP (anchor of the property): a VEP table with a few rows that cannot be
+    converted (Location that is not `name:int[-int]`, position outside the gene).  With the flag the
+    command completes, counts the rows as failed and writes the GVF of the table WITHOUT those rows;
+    without it the command terminates with an error and leaves no GVF."""
+    import argparse
+    import shutil
+    import tempfile
+    from pathlib import Path
+    from . import c14
+    from moPepGen import cli, seqvar
+    n_runs = 0
+    for i in range(ctx.n(24, 240)):
+        rng = ctx.rng('parsers', i)
+        a = c14.gen_ref(rng, 700000 + i)
+        tmp = tempfile.mkdtemp(prefix='c07p_')
+        R = None
+        try:
+            R = c14.load_ref(a, tmp)
+            good = []
+            for g in a.genes:
+                chrom = a.chroms[g.chrom]
+                for t in g.txs[:2]:
+                    for (es, ee) in t.exons:
+                        for _ in range(2):
+                            p0 = rng.randrange(es, ee)
+                            ref = chrom[p0].upper()
+                            alts = [c for c in 'ACGT' if c not in (ref, c14.COMP.get(ref, ref))]
+                            if alts:
+                                good.append(c14.vep_line(g, t, p0 + 1, p0 + 1, rng.choice(alts)))
+            if len(good) < 3:
+                continue
+            good = rng.sample(good, min(len(good), rng.randint(3, 10)))
+            g0 = a.genes[0]
+            t0 = g0.txs[0]
+
+            def bad_row(kind):
+                f = c14.vep_line(g0, t0, g0.start + 1, g0.start + 1, 'A').split('\t')
+                f[1] = {'not-a-number': f'{g0.chrom}:abc', 'colons': 'HLA-DRB1*15:01:01:01:1179',
+                        'no-colon': g0.chrom, 'outside': f'{g0.chrom}:{len(a.chroms[g0.chrom]) + 50}',
+                        'empty-range': f'{g0.chrom}:12-'}[kind]
+                return '\t'.join(f)
+            kinds = rng.sample(['not-a-number', 'colons', 'no-colon', 'outside', 'empty-range'], rng.randint(1, 2))
+            rows = list(good)
+            for k in kinds:
+                rows.insert(rng.randrange(len(rows) + 1), bad_row(k))
+
+            def run(lines, name, skip):
+                pth = Path(tmp) / f'{name}.txt'
+                pth.write_text('## VEP\n#Uploaded_variation\tLocation\tAllele\n' + '\n'.join(lines) + '\n')
+                args = c14.vep_args(R, tmp, [pth], f'{name}.gvf', skip)
+                msgs, exc = c14.run_cli(cli.parse_vep, args)
+                recs = None
+                if args.output_path.exists():
+                    try:
+                        recs = sorted(c14.canon_rec(r) for r in seqvar.io.parse(str(args.output_path)))
+                    except Exception as e:   # noqa
+                        recs = [f'unreadable:{type(e).__name__}']
+                return msgs, exc, recs
+            m0, exc0, ref_recs = run(good, 'ref', True)
+            msgs, exc, recs = run(rows, 'skip', True)
+            _m2, exc2, recs2 = run(rows, 'noskip', False)
+            n_runs += 1
+            desc = {'rows': rows, 'bad_kinds': kinds}
+            ctx.evaluated('parser-skip-failed', str(i), True, desc if i < 2 else None)
+            if exc0 is not None:
+                ctx.add_broken('correspondence', 'parser-skip-failed', f'reference table failed: {exc0!r}')
+                continue
+            if exc is not None:
+                ctx.add_violation(f'parseVEP --skip-failed was terminated by a row that cannot be converted '
+                                  f'({kinds}): {exc!r}', dict(desc, kind='parser-skip-aborts'))
+            else:
+                if recs != ref_recs:
+                    ctx.add_violation('parseVEP --skip-failed: the GVF differs from the GVF of the table without '
+                                      'the failing rows', dict(desc, kind='parser-skip-output', gvf=(recs or [])[:10],
+                                                               expected=(ref_recs or [])[:10]))
+                keys = {'total': 'Totally records read', 'failed': 'Records failed'}
+                tl, tl0 = c14.tally_from(msgs, keys), c14.tally_from(m0, keys)
+                # (rows on the start / stop codon of the reference table are counted as failed too)
+                want_failed = (tl0.get('failed') or 0) + len(kinds)
+                if tl.get('total') != len(rows) or tl.get('failed') != want_failed:
+                    ctx.add_violation(f'parseVEP --skip-failed tally {tl}: expected {len(rows)} rows read, '
+                                      f'{want_failed} failed', dict(desc, kind='parser-skip-tally'))
+            if exc2 is None:
+                ctx.add_violation('parseVEP WITHOUT --skip-failed completed although a row cannot be converted',
+                                  dict(desc, kind='parser-noskip-completes', gvf_written=recs2 is not None))
+            elif recs2 is not None:
+                ctx.add_violation('parseVEP without --skip-failed terminated with an error but left a GVF file',
+                                  dict(desc, kind='parser-noskip-gvf'))
+        finally:
+            if R is not None:
+                c14.close_ref(R)
+            shutil.rmtree(tmp, ignore_errors=True)
+    ctx.coverage['parser_skip_failed_tables'] = n_runs
+
+
 def run(ctx: common.Ctx):
     ctx.coverage['rule'] = (
         'generated references (2-4 genes) with SNV/indel/AS/fusion/circRNA records; baseline run '
@@ -23,6 +119,7 @@ def run(ctx: common.Ctx):
         'with the transcript as "no dispatch"; without the flag: abort, no FASTA. non-trivial = run '
         'with >= 1 peptide or an abort')
     stats = pipe_checks.run_workers(ctx, pipe_explore.c07_worker, ctx.n(36, 400))
+    parser_stream(ctx)
     ctx.coverage['fault_sets_explored'] = stats.get('fault_runs', 0)
     ctx.coverage['invalid_series_runs'] = stats.get('invalid_skip_runs', 0) + stats.get('invalid_noskip_runs', 0)
     ctx.assumptions += [
